@@ -175,10 +175,6 @@ func (h *RealtimeHandler) HandleParticipantJoin(ctx context.Context, handleFrame
 		return nil
 	}
 
-	if h.currentParticipant != nil {
-		h.leaveSession()
-	}
-
 	if !ok {
 		session = models.NewSession(h.Sessions.NewID(), h.FrameDuration)
 		session.AppKey = h.appKey
@@ -200,7 +196,22 @@ func (h *RealtimeHandler) HandleParticipantJoin(ctx context.Context, handleFrame
 		SignedLatency: &models.SignedLatency{},
 	}
 
-	session.AddParticipant(participant)
+	if !h.Sessions.AddParticipant(session, participant) {
+		// The last participant left and the session ended between the lookup
+		// and now: the session id no longer resolves.
+		respond.Send(&hagallpb.ErrorResponse{
+			Type:      hagallpb.MsgType_MSG_TYPE_ERROR_RESPONSE,
+			Timestamp: timestamppb.Now(),
+			RequestId: req.RequestId,
+			Code:      hagallpb.ErrorCode_ERROR_CODE_NOT_FOUND,
+		})
+		return nil
+	}
+
+	if h.currentParticipant != nil {
+		h.leaveSession()
+	}
+
 	h.stopFrameHandling = session.HandleFrame(handleFrame)
 
 	respond.Send(&hagallpb.ParticipantJoinResponse{
@@ -1035,10 +1046,9 @@ func (h *RealtimeHandler) leaveSession() {
 		})
 	})
 
-	if session.ParticipantCount() == 0 {
-		// Here we use a context.Background to ensure the session to be deleted
-		// on the session discovery service (eg HDS).
-		h.Sessions.Remove(context.Background(), session)
+	// Here we use a context.Background to ensure the session to be deleted
+	// on the session discovery service (eg HDS).
+	if h.Sessions.RemoveIfEmpty(context.Background(), session) {
 		session.Close()
 	}
 
